@@ -802,4 +802,159 @@ def run(ctx, prog):
                 if 'rv' in st and st['pl'].get('p') == ['*'] and 'HashMap<alloc::string::String, ' in lf.locals[st['pl']['l']] and 'TenantInfo' in lf.locals[st['pl']['l']]:
                     inst.append(flow.render(ov10.of_rvalue(st['rv'], 0, frozenset({-1}))))
         ctx.inst('C10.R10', lf.short, 'the installed key table is the one built from the file', bool(inst) and set(inst) == {'var:keys'}, 'installed: %s' % sorted(set(inst)))
+    index_key_is_the_authenticated_id(ctx, prog)
+    usage_sources_closed(ctx, prog)
+    tenant_map_durable(ctx, prog)
     ctx.stat('functions_analysed', len(set(i['key'].split(' | ')[1] for i in ctx.instances)))
+
+
+# ---------------------------------------------------------------------- R11
+def _validated_field(e, field):
+    """e is `<AuthManager::validate(..) result>.field` read as is: the field of the validated TenantInfo below nothing but variant / tuple projections
+    (clone, as_str, deref, `?` are transparent for origins; any other call — to_lowercase, trim, format! — is not)."""
+    if e[0] != 'field' or not e[2].endswith(field):
+        return False
+    x = e[1]
+    while x[0] in ('downcast', 'field') and (x[0] == 'downcast' or re.match(r'^\.\d+$', x[2]) or re.search(r'(Continue|Some|Ok)\.0$', x[2])):
+        x = x[1]
+    return x[0] == 'call' and bool(re.search(r'AuthManager::validate$', x[1]))
+
+
+def index_key_is_the_authenticated_id(ctx, prog):
+    ctx.rule('C10.R11', 'the index is looked up under the authenticated tenant id itself: in the auth interceptor the key handed to TenantIdMapper::ensure_tenant and the '
+                        'tenant_id put into the TenantContext are the tenant_id of the TenantInfo that AuthManager::validate returned, unmodified, and ensure_tenant reads '
+                        'and fills the map under its argument as is. R8 proves the allocation injective per MAP KEY; tenant ids are case-sensitive, so a key that is a '
+                        'function of the id (lower-cased, trimmed, truncated) sends two tenants to one index — and with it to one id range, one __tenant_idx__ and one cache scope')
+    m = ctx.body('C10.R11', 'kyrodb_server::main')
+    ic = [b for b in prog.family(m) if b.kind == 'Closure' and b.calls_to('AuthManager::validate')]
+    if not ic:
+        ctx.missing('C10.R11', 'main: interceptor closure calling AuthManager::validate')
+    else:
+        i_ = ic[0]
+        io = flow.Origin(i_)
+        et = i_.calls_to('TenantIdMapper::ensure_tenant')
+        if not et:
+            ctx.missing('C10.R11', 'interceptor: call of TenantIdMapper::ensure_tenant')
+        for k, c in enumerate(et):
+            e = io.of_operand(c.args[1]) if len(c.args) > 1 else ('local', -1)
+            ok = _validated_field(e, 'TenantInfo.tenant_id')
+            r = flow.render(e)
+            ctx.inst('C10.R11', 'interceptor', 'ensure_tenant #%d is keyed by the validated tenant id as is' % k, ok,
+                     'key = %s%s' % ((r[:40] + ' … ' + r[-60:]) if len(r) > 110 else r, '' if ok else
+                                     ' at %s: not the tenant_id of the validated TenantInfo itself — two tenants whose ids differ only in what the transformation drops share one index' % c.loc))
+        agg = [s for bl in i_.blocks for s in bl['s'] if s.get('rv', {}).get('k') == 'agg' and s['rv'].get('adt', '').endswith('TenantContext')]
+        for k, s in enumerate(agg):
+            rv = s['rv']
+            e = io.of_operand(rv['ops'][rv['fields'].index('tenant_id')])
+            ok = _validated_field(e, 'TenantInfo.tenant_id')
+            r = flow.render(e)
+            ctx.inst('C10.R11', 'interceptor', 'TenantContext #%d carries the validated tenant id as is' % k, ok,
+                     'tenant_id = %s' % ((r[:40] + ' … ' + r[-60:]) if len(r) > 110 else r))
+    en = ctx.body('C10.R11', 'TenantIdMapper::ensure_tenant')
+    oe = flow.Origin(en)
+    n_k = 0
+    bad = []
+    for c in en.calls:
+        sh = flow.short(c.callee or '')
+        mm = re.search(r'HashMap(?:<.*>)?::(get|get_mut|contains_key|insert|entry|remove|get_key_value)$', sh)
+        if not (mm and len(c.args) >= 2 and 'TenantIdMapper.map' in flow.render(oe.of_operand(c.args[0]))):
+            continue
+        n_k += 1
+        kx = flow.render(oe.of_operand(c.args[1]))
+        if kx not in ('arg:tenant_id', '<T as string::ToString>::to_string(arg:tenant_id)', 'String::from(arg:tenant_id)', 'str::to_string(arg:tenant_id)', 'str::to_owned(arg:tenant_id)'):
+            bad.append('%s(%s) at %s' % (mm.group(1), kx[:80], c.loc))
+    ctx.inst('C10.R11', en.short, 'the map is read and filled under the argument as is', n_k >= 3 and not bad,
+             ('map access under a key that is not the argument itself: %s' % bad[:2]) if bad else '%d keyed map accesses, all under arg:tenant_id' % n_k)
+
+
+# ---------------------------------------------------------------------- R12
+USAGE_STATE_OK = {'usage_tracker': 'per-tenant snapshots, reached only under the guards of R6', 'app_config': 'static configuration', 'engine_config': 'static configuration',
+                  'start_time': 'process start time', 'metrics': 'process-wide aggregate counters (outside the property)'}
+
+
+def usage_sources_closed(ctx, prog):
+    ctx.rule('C10.R12', 'closed sources of the /usage report: the handler touches the server state only through usage_tracker (whose two accessors R6 guards) and '
+                        'static / process-wide components (app_config, engine_config, start_time, metrics); it reads no other component of ServerState (engine, auth, '
+                        'rate limiter, tenant mapper, quota tables hold data of ALL tenants and nothing scopes them to the requester) and hands the state to no other '
+                        'function. A number taken from there — e.g. totals.vector_count from engine.stats() — lets any tenant watch the others\' writes and deletes')
+    uh = prog.family(ctx.body('C10.R12', 'kyrodb_server::usage_handler'))
+    seen = {}
+    handed = []
+    n_state = 0
+    for b in uh:
+        st_locals = set(l for l, t in enumerate(b.locals) if re.search(r'kyrodb_server::ServerState\b', t))
+        n_state += len(st_locals)
+
+        def note(pl, loc):
+            for x in (pl.get('p') or []):
+                if isinstance(x, str):
+                    mm = re.search(r'ServerState\.(\w+)$', x)
+                    if mm:
+                        seen.setdefault(mm.group(1), loc)
+        for i in sorted(b.live_blocks()):
+            blk = b.blocks[i]
+            for s in blk['s']:
+                if 'pl' in s:
+                    note(s['pl'], s.get('loc', '?'))
+                rv = s.get('rv')
+                if rv:
+                    for o in ([rv.get('a'), rv.get('b')] + list(rv.get('ops') or [])):
+                        if o and o.get('k') in ('mv', 'cp'):
+                            note(o['pl'], s.get('loc', '?'))
+                    if rv.get('pl'):
+                        note(rv['pl'], s.get('loc', '?'))
+            t = blk['t']
+            for o in list(t.get('args') or []) + ([t['on']] if t.get('on') else []):
+                if o.get('k') in ('mv', 'cp'):
+                    note(o['pl'], t.get('loc', '?'))
+            if t.get('dest'):
+                note(t['dest'], t.get('loc', '?'))
+        for c in b.calls:
+            if any(a.get('k') in ('mv', 'cp') and not a['pl'].get('p') and a['pl']['l'] in st_locals for a in c.args):
+                g = prog.resolve_local(c.callee) if c.callee else None
+                if g is not None or c.callee is None:
+                    handed.append('%s at %s' % (flow.short(c.callee) if c.callee else 'an indirect callee', c.loc))
+    foreign = sorted((f, loc) for f, loc in seen.items() if f not in USAGE_STATE_OK)
+    ctx.inst('C10.R12', 'usage_handler', 'reads tenant data only through the usage tracker', bool(seen.get('usage_tracker')) and not foreign and not handed,
+             ('; '.join(['ServerState.%s read at %s: holds data of every tenant, unscoped' % fl for fl in foreign[:3]] + ['server state handed to %s' % h for h in handed[:2]]))
+             if (foreign or handed) else 'components of ServerState read: %s' % sorted(seen))
+    ctx.floor('C10.R12', 'locals of usage_handler that hold the server state', n_state, 1, 'the AxumState extractor and its derefs')
+
+
+# ---------------------------------------------------------------------- R13
+def tenant_map_durable(ctx, prog):
+    ctx.rule('C10.R13', 'an index is handed out only once the map that contains it is durable: persist_map_atomic is write_all(tmp) ≺ sync_all(tmp) ≺ rename(tmp → path) '
+                        '≺ sync_all(parent directory) ≺ Ok, and ensure_tenant returns a newly allocated index only past persist_map_atomic = Ok. Documents are durable (WAL) '
+                        'under the index; if a power failure can roll tenants.json back behind an index already in use, the next new tenant is given len(map) = that same '
+                        'index and owns the documents')
+    p = ctx.body('C10.R13', 'TenantIdMapper::persist_map_atomic')
+    o = flow.Origin(p)
+    wr = [c for c in p.calls if c.callee and re.search(r'Write(>)?::write_all$', c.callee)]
+    syn = [c for c in p.calls if c.callee and re.search(r'fs::File::sync_(all|data)$', c.callee)]
+    ren = [c for c in p.calls if c.callee and c.callee.endswith('std::fs::rename')]
+    tmpf = [c for c in syn if 'OpenOptions::open(' in flow.render(o.of_operand(c.args[0])) or 'File::create(' in flow.render(o.of_operand(c.args[0]))]
+    dirs = [c for c in syn if c.callee.endswith('sync_all') and re.match(r'^File::open\(Path::parent\(arg:path\)', flow.render(o.of_operand(c.args[0])))]
+    steps = [util.Step('write_all(tmp)', p, [c.bb for c in wr]), util.Step('sync_all(tmp)', p, [c.bb for c in tmpf]),
+             util.Step('rename(tmp → path)', p, [c.bb for c in ren]), util.Step('sync_all(parent dir)', p, [c.bb for c in dirs])]
+    util.check_chain(ctx, 'C10.R13', p, steps)
+    if wr and tmpf and ren:
+        wf = flow.render(o.of_operand(wr[0].args[0]))
+        sf = flow.render(o.of_operand(tmpf[0].args[0]))
+        src = flow.render(o.of_operand(ren[0].args[0]))
+        dst = flow.render(o.of_operand(ren[0].args[1]))
+        opened = [flow.render(o.of_operand(c.args[1])) for c in p.calls if c.callee and c.callee.endswith('OpenOptions::open') and len(c.args) > 1]
+        ctx.inst('C10.R13', p.short, 'the file written is the file synced and renamed onto the path argument', wf == sf and src in opened and dst == 'arg:path',
+                 'write_all/sync_all on the same handle: %s; rename(source is the opened temp: %s → %s)' % (wf == sf, src in opened, dst))
+    en = ctx.body('C10.R13', 'TenantIdMapper::ensure_tenant')
+    oe = flow.Origin(en)
+    ins = [c for c in en.calls if c.callee and re.search(r'HashMap(<.*>)?::insert$', flow.short(c.callee)) and c.args and 'TenantIdMapper.map' in flow.render(oe.of_operand(c.args[0]))]
+    per = en.calls_to('TenantIdMapper::persist_map_atomic')
+    if not ins or not per:
+        ctx.missing('C10.R13', 'ensure_tenant: map insert followed by persist_map_atomic')
+        return
+    s_e = [e for c in per for e in flow.success_edges(en, c)]
+    tested = all(flow.outcome_edges(en, c)[0] is not None for c in per)
+    r = en.reach([c.bb for c in ins], avoid_blocks=flow.err_blocks(en), avoid_edges=s_e)
+    okr = tested and not any(x in r for x in en.return_blocks())
+    ctx.inst('C10.R13', en.short, 'a new index is returned only past persist_map_atomic = Ok', okr,
+             'Ok return reachable from the insertion without a successful persist: %s' % (not okr))
